@@ -58,9 +58,10 @@ RULE = (
     "hand-written corpus (DESIGN §7.1 witness, cross-method, non-echoing, key-colliding identities, LRU order, capacity 0, "
     "TTL boundaries in quarter seconds, a busy stream driven past its call token's expiry) + generated histories (two thirds "
     "mixed, one third following one busy stream with sticky routing and clock steps below the TTL): 2-3 workers, capacities 0..3, token_ttl in {0,2,3,10}, "
-    "<=12 (quick) / <=25 (thorough) steps of tick/init/continuation over 6 stream methods (two exchange methods with "
+    "<=12 (quick) / <=25 (thorough) steps of tick/init/continuation over 9 stream methods (two exchange methods with "
     "different call-state classes, a producer without call state, one whose state does not decode foreign cursors, one "
-    "whose call-state class it does not declare, one whose state never rehydrates) and 8 identities; continuation "
+    "whose state never rehydrates; call-state class relations: /init hands out the declared class, an unrelated class, a "
+    "subclass of the declared class, an unrelated class with the same name and fields, the declared classes of a union state) and 8 identities; continuation "
     "requests are mostly conforming, with streams of wrong identity / wrong method / missing, junk or mispaired call "
     "token / junk cursor / cancel; clock steps biased to the TTL boundary. A history is non-trivial when at least one "
     "continuation hit a warm cache; distinct by the symbolic history"
@@ -104,6 +105,24 @@ class CA(ArrowSerializableDataclass):
 @dataclass(frozen=True)
 class CB(ArrowSerializableDataclass):
     tag: int
+
+
+@dataclass(frozen=True)
+class CA2(CA):
+    """A subclass of the declared call-state class (nothing validates `Stream.call_state` at /init)."""
+
+    extra: int = 0
+
+
+def _twin_of_ca() -> Any:
+    @dataclass(frozen=True)
+    class CA(ArrowSerializableDataclass):  # same name, same fields, unrelated class object
+        tag: int
+
+    return CA
+
+
+CA_TWIN = _twin_of_ca()
 
 
 def _emit(out: Any, code: int, tag: int, n: int, x: int) -> None:
@@ -195,7 +214,37 @@ class SD(StreamState):
         self.n += 1
 
 
+def _exchange_state(code: int, declared: Any, doc: str) -> Any:
+    @dataclass
+    class _S(StreamState):
+        n: int = 0
+        CALL_STATE_TYPE: ClassVar[Any] = declared
+
+        def bind_call_state(self, call_state: Any) -> None:
+            self._cs = call_state
+
+        def process(self, input: Any, out: Any, ctx: Any) -> None:
+            _emit(out, code, self._cs.tag, self.n, input.batch.column(0)[0].as_py())
+            self.n += 1
+
+    _S.__doc__ = doc
+    return _S
+
+
+SS = _exchange_state(7, CA, "declares CA; /init hands out the subclass CA2")
+SS.__name__ = SS.__qualname__ = "SS"
+SN = _exchange_state(8, CA, "declares CA; /init hands out an unrelated class that is also called CA")
+SN.__name__ = SN.__qualname__ = "SN"
+SU1 = _exchange_state(9, CA, "union member carrying a CA call state")
+SU1.__name__ = SU1.__qualname__ = "SU1"
+SU2 = _exchange_state(10, CB, "union member carrying a CB call state")
+SU2.__name__ = SU2.__qualname__ = "SU2"
+
+
 class Proto(Protocol):
+    def exs(self, tag: int) -> Stream[SS]: ...
+    def exn(self, tag: int) -> Stream[SN]: ...
+    def exu(self, tag: int) -> Stream[SU1 | SU2]: ...
     def exa(self, tag: int) -> Stream[SA]: ...
     def exb(self, tag: int) -> Stream[SB]: ...
     def prod(self, tag: int) -> Stream[SP]: ...
@@ -205,6 +254,17 @@ class Proto(Protocol):
 
 
 class Impl:
+    def exs(self, tag: int) -> Stream[SS]:
+        return Stream(output_schema=OUT, state=SS(0), input_schema=IN, call_state=CA2(tag, 5))
+
+    def exn(self, tag: int) -> Stream[SN]:
+        return Stream(output_schema=OUT, state=SN(0), input_schema=IN, call_state=CA_TWIN(tag))
+
+    def exu(self, tag: int) -> Stream[SU1 | SU2]:
+        if tag % 2 == 0:
+            return Stream(output_schema=OUT, state=SU1(0), input_schema=IN, call_state=CA(tag))
+        return Stream(output_schema=OUT, state=SU2(0), input_schema=IN, call_state=CB(tag))
+
     def exa(self, tag: int) -> Stream[SA]:
         return Stream(output_schema=OUT, state=SA(0), input_schema=IN, call_state=CA(tag))
 
@@ -224,13 +284,24 @@ class Impl:
         return Stream(output_schema=OUT, state=SD(0), input_schema=IN, call_state=CA(tag))
 
 
-METHODS = ["exa", "exb", "prod", "exa2", "exm", "exd"]
-STATE_CLS = [SA, SB, SP, SA2, SM, SD]
-STATE_SAMPLE = [SA(0), SB(0), SP(0, 0), SA2(0), SM(0), SD(0)]
-STYPE: list[int | None] = [0, 1, None, 0, 1, 0]  # call-state class of each method's streams (0 = CA, 1 = CB)
-DECLARES = [[True, False], [False, True], [False, False], [True, False], [True, False], [True, False]]
-PRODUCER = [False, False, True, False, False, False]
-CALL_STATE_CODES = {1, 2, 4, 5, 6}  # row codes of the methods whose output carries the tag of the bound call state
+METHODS = ["exa", "exb", "prod", "exa2", "exm", "exd", "exs", "exn", "exu"]
+STATE_CLS: list[Any] = [SA, SB, SP, SA2, SM, SD, SS, SN, (SU1, SU2)]  # `state_info`: class, or tuple for a union
+STATE_SAMPLE = [SA(0), SB(0), SP(0, 0), SA2(0), SM(0), SD(0), SS(0), SN(0), SU2(0)]
+# class *name* of the call state /init hands out (what the call token carries): 0 = "CA", 1 = "CB", 2 = "CA2"
+_STYPE: list[int | None] = [0, 1, None, 0, 1, 0, 2, 0, None]
+# what the handed-out class is relative to the state's CALL_STATE_TYPE
+CS_KIND = ["declared", "declared", "none", "declared", "unrelated", "declared", "subclass", "same-name-twin", "declared(union)"]
+DECLARES = [[True, False, False], [False, True, False], [False, False, False], [True, False, False], [True, False, False],
+            [True, False, False], [True, False, False], [True, False, False], [True, True, False]]
+PRODUCER = [False, False, True, False, False, False, False, False, False]
+CALL_STATE_CODES = {1, 2, 4, 5, 6, 7, 8, 9, 10}  # row codes of the methods whose output carries the tag of the bound call state
+
+
+def stype_of(m: int, cid: int) -> int | None:
+    """Name id of the call-state class of call `cid` minted by method `m` (the union method alternates CA / CB)."""
+    if METHODS[m] == "exu":
+        return 0 if cid % 2 == 0 else 1
+    return _STYPE[m]
 
 # identities: index -> (domain, principal) | None (anonymous). 0/1 collide on the cache key, 6/7 on key *and* AAD.
 IDENTS: list[tuple[str, str] | None] = [
@@ -446,6 +517,7 @@ class Deployment:
         self.steps: list[dict[str, Any]] = []
         self.obs: list[dict[str, Any] | None] = []
         self.hits = 0
+        self.skipped = 0
         self._foreign_tokens: tuple[bytes, bytes] | None = None
 
     # -- low level
@@ -497,6 +569,16 @@ class Deployment:
 
     # -- symbolic steps
     def do(self, st: dict[str, Any]) -> None:
+        if st["t"] == "cont":
+            # a hand-written or replayed step may name a token the tree under test never issued (an earlier request was
+            # answered differently than on the tree the history was written for): such a step is dropped, not an error
+            cur_ref, call_ref = st["cur"], st["call"]
+            if isinstance(cur_ref, int) and (cur_ref >= len(self.cursors) or self.cursors[cur_ref] is None):
+                self.skipped += 1
+                return
+            if isinstance(call_ref, int) and call_ref >= len(self.calls):
+                self.skipped += 1
+                return
         self.steps.append(st)
         if st["t"] == "tick":
             self.clock.ticks += st["d"]
@@ -599,7 +681,7 @@ def model_steps(steps: list[dict[str, Any]]) -> list[dict[str, Any]]:
         if st["t"] == "tick":
             out.append(st)
         elif st["t"] == "init":
-            out.append({"t": "init", "w": st["w"], "id": ident_json(st["id"]), "m": st["m"], "content": ncalls, "stype": STYPE[st["m"]]})
+            out.append({"t": "init", "w": st["w"], "id": ident_json(st["id"]), "m": st["m"], "content": ncalls, "stype": stype_of(st["m"], ncalls)})
             ncalls += 1
         else:
             cur = st["cur"] if isinstance(st["cur"], int) else None
@@ -622,6 +704,8 @@ def _why(dep: Deployment, st: dict[str, Any], ob: dict[str, Any]) -> str:
     cid = ob["named_cid"]
     if cid is None:
         return "no-cursor"
+    if "callType" in (ob["cold"]["cat"], ob["warm"]["cat"]) and st["m"] == dep.calls[cid]["m"]:
+        return "call-state-class-" + CS_KIND[st["m"]]
     if st["m"] != dep.calls[cid]["m"]:
         return "cross-method"
     if dep.ttl > 0 and ob["now_s"] - dep.calls[cid]["created_s"] > dep.ttl:
@@ -648,7 +732,7 @@ def evaluate(ctx: Any, dep: Deployment, decodes: list[list[bool]], tags: tuple[s
                 if wc == "served" and cc != "served":
                     key = f"C14:warm-served-cold-rejected:{cc}:{_why(dep, st, ob)}"
                 elif wc != "served" and cc == "served":
-                    key = f"C14:warm-rejected-cold-served:{wc}"
+                    key = f"C14:warm-rejected-cold-served:{wc}:{_why(dep, st, ob)}"
                 else:
                     key = f"C14:outcome-differs:{wc}:{cc}"
                 ctx.fail(case, key, f"worker {st['w']} (cache capacity {dep.caps[st['w']]}) answered {outcome(warm)}, an instance "
@@ -735,7 +819,7 @@ def generate(rng: Any, pool: Pool, clock: Clock, max_steps: int) -> Deployment:
         idents = [6, 7]  # collide on the AAD as well
     methods = []
     while len(methods) < rng.choice([1, 2, 2, 3]):
-        mm = rng.choice([0, 0, 0, 1, 1, 2, 2, 3, 4, 5])  # the well-configured methods more often
+        mm = rng.choice([0, 0, 0, 1, 1, 2, 2, 3, 4, 5, 6, 7, 7, 8, 8])  # the well-configured methods more often
         if mm not in methods:
             methods.append(mm)
     n = rng.randint(4, max_steps)
@@ -783,7 +867,7 @@ def generate_busy(rng: Any, pool: Pool, clock: Clock, max_steps: int) -> Deploym
     caps = [rng.choice([0, 1, 1, 2, 3]) for _ in range(rng.choice([2, 3, 3]))]
     dep = Deployment(pool, clock, ttl, caps, fresh_ref=rng.random() < 0.03)
     ident = rng.randrange(len(IDENTS))
-    m = rng.choice([0, 0, 1, 2, 3])
+    m = rng.choice([0, 0, 1, 2, 3, 6, 7, 8])
     home = rng.randrange(len(caps))
     if caps[home] == 0 and rng.random() < 0.8:
         caps_pos = [i for i, c in enumerate(caps) if c > 0]
@@ -798,7 +882,7 @@ def generate_busy(rng: Any, pool: Pool, clock: Clock, max_steps: int) -> Deploym
             d = rng.choice([rng.randint(1, span), rng.randint(max(1, span // 3), span), max(1, span - rng.randint(0, 3))])
             dep.do({"t": "tick", "d": d})
         elif r < 0.52 and len(dep.calls) < 4:
-            dep.do({"t": "init", "w": home, "id": ident, "m": rng.choice([0, 1, 3])})
+            dep.do({"t": "init", "w": home, "id": ident, "m": rng.choice([0, 1, 3, 7, 8])})
         else:
             w = home if rng.random() < 0.7 else rng.randrange(len(caps))
             before = len(dep.cursors)
@@ -868,6 +952,14 @@ def corpus() -> list[tuple[str, int, list[int], list[dict[str, Any]]]]:
                 [_i(0, 2, 0), _t(3 * S), _c(0, 2, 0, 0, 0), _c(1, 2, 0, 0, 0), _t(3 * S), _c(0, 2, 0, 1, 0), _c(1, 2, 0, 1, 0),
                  _t(3 * S), _c(0, 2, 0, 3, 0), _c(1, 2, 0, 3, 0), _t(2 * S), _c(0, 2, 0, 5, 0), _c(1, 2, 0, 5, 0), _c(2, 2, 0, 5, 0),
                  _t(7 * S), _c(0, 2, 0, 5, 0), _c(1, 2, 0, 5, 0), _c(2, 2, 0, 5, 0)]))
+    # call-state class hierarchies: /init hands out a subclass of the declared class (exs), an unrelated class with the
+    # same name and fields (exn), the declared classes of a union state (exu: CA for even call ids, CB for odd) — each
+    # continued on the worker that ran /init (warm: the live object) and on one that only has the token (cold: by name)
+    out.append(("call-state-subclass", 10, [3, 3], [_i(0, 2, 6), _c(0, 2, 6, 0, 0), _c(1, 2, 6, 0, 0), _c(1, 2, 6, 0, 0)]))
+    out.append(("call-state-twin", 10, [3, 3],
+                [_i(0, 2, 7), _c(0, 2, 7, 0, 0), _c(1, 2, 7, 0, 0), _c(1, 2, 7, 1, 0), _c(0, 2, 7, 1, 0)]))
+    out.append(("call-state-union", 10, [3, 3],
+                [_i(0, 2, 8), _i(0, 2, 8), _c(0, 2, 8, 0, 0), _c(1, 2, 8, 0, 0), _c(0, 2, 8, 1, 1), _c(1, 2, 8, 1, 1), _c(1, 2, 8, 2, 0)]))
     # tokens never expire: entry lifetime is housekeeping (3600 s)
     out.append(("ttl0", 0, [1, 1], [_i(0, 2, 0), _t(3599 * S), _c(0, 2, 0, 0, 0), _t(S), _c(0, 2, 0, 1, 0), _c(1, 2, 0, 1, 0),
                                     _t(3600 * S), _c(1, 2, 0, 2, 0)]))
